@@ -737,13 +737,13 @@ func (ar *asyncRunner) start(nArgs int) {
 	ar.promiseCap = r.newPromiseCapability(r.getPromise())
 	sp := r.vm.sp
 	ar.gen.enter()
+	defer r.vm.popTryFrame()
 	ar.vmCall(r.vm, nArgs)
 	res, resType, ex := ar.gen.step()
 	ar.step(res, resType == resultNormal, ex)
 	if ex != nil {
 		r.vm.sp = sp - nArgs - 2
 	}
-	r.vm.popTryFrame()
 	r.vm.popCtx()
 }
 
@@ -870,26 +870,25 @@ func (g *generator) enterNext() {
 
 func (g *generator) next(v Value) (Value, resultType, *Exception) {
 	g.enterNext()
+	defer g.vm.popTryFrame()
 	if v != nil {
 		g.vm.push(v)
 	}
 	res, done, ex := g.step()
-	g.vm.popTryFrame()
 	g.vm.popCtx()
 	return res, done, ex
 }
 
 func (g *generator) nextThrow(v interface{}) (Value, resultType, *Exception) {
 	g.enterNext()
+	defer g.vm.popTryFrame()
 	ex := g.vm.handleThrow(v)
 	if ex != nil {
-		g.vm.popTryFrame()
 		g.vm.popCtx()
 		return nil, resultNormal, ex
 	}
 
 	res, resType, ex := g.step()
-	g.vm.popTryFrame()
 	g.vm.popCtx()
 	return res, resType, ex
 }
@@ -900,11 +899,11 @@ func (g *generatorObject) init(vmCall func(*vm, int), nArgs int) {
 	g.gen.vm = vm
 
 	g.gen.enter()
+	defer vm.popTryFrame()
 	vmCall(vm, nArgs)
 
 	_, _, ex := g.gen.step()
 
-	vm.popTryFrame()
 	if ex != nil {
 		panic(ex)
 	}
@@ -1061,12 +1060,11 @@ func (g *generatorObject) _return(v Value) Value {
 	g.gen.returning = v
 	g.state = genStateExecuting
 	g.gen.enterNext()
+	vm := g.gen.vm
+	defer vm.popTryFrame()
 	canContinue := g.gen.enterNextFinallyFrame()
 	if !canContinue {
-		vm := g.gen.vm
 		g.state = genStateCompleted
-
-		vm.popTryFrame()
 
 		ex := vm.restoreStacks(g.gen.iterStackLen, g.gen.refStackLen)
 
@@ -1081,8 +1079,6 @@ func (g *generatorObject) _return(v Value) Value {
 		return g.val.runtime.createIterResultObject(v, true)
 	}
 	res, done, ex := g.gen.step()
-	vm := g.gen.vm
-	vm.popTryFrame()
 	vm.popCtx()
 
 	return g.step(res, done, ex)
